@@ -4,7 +4,7 @@ import os
 import re
 import shutil
 
-from vf import common, emucheck, emucore, gen_hist, trace
+from vf import common, emucheck, emucore, emuall, gen_hist, trace
 
 LEVEL = "proof"
 
@@ -225,6 +225,72 @@ def ops_campaign(chk, build, pv_oracle, n):
         if a != b:
             what = "refused at different operations (real %s, model %s)" % (a[:12], b[:12]) if a[:1] == "E" or b[:1] == "E" else "different bytes"
             bad.append((ln[:400], what))
+    return bad
+
+
+CLK_HEADER = b"%-10s %-20s %-20s %-20s %-20s" % (b"rank", b"hostname", b"offset_median", b"offset_mean", b"offset_std")
+
+
+def emuall_family(chk, build, scs):
+    """WHOLE trace directories through the extracted composition EmuAllDefs.ovniemu_model (stream bytes, stream.json
+    in the abstract forms of the models, clock-offsets.txt bytes, options) against the real ovniemu on the same
+    directory: same verdict, and the same six files when accepted"""
+    try:
+        oracle = common.build_oracle("emuall", "Extract_emuall", "emuall_drv.ml", "emuall_x")
+    except Exception as e:
+        chk.notes.append("emuall oracle unavailable: %r" % (e,))
+        if not getattr(chk, "proof_broken", None):
+            chk.proof_broken = {"kind": "extraction", "error": repr(e)[:600]}
+        return []
+    pick = scs[:chk.budget(200, 1200)]
+    wd = trace.workdir("ovni-c13all-")
+    bad = []
+    try:
+        inputs = []
+        dirs = []
+        for i, s in enumerate(pick):
+            r = chk.rng.fork("all%d" % i)
+            d = os.path.join(wd, "t%d" % i)
+            s.write(d)
+            if r.chance(1, 3):
+                # a clock-offset table naming every loom of the trace (small offsets: the order of the merge changes,
+                # the gate does not close)
+                rows = [CLK_HEADER]
+                for k, name in enumerate(sorted(set(t["loom"] for t in s.threads))):
+                    off = r.range(0, 40) * (1 if r.chance(2, 3) else -1)
+                    rows.append(b"%-10d %-20s %-20d %-20d %-20d" % (k, name.split(".")[0].encode("latin1"), off, off, 0))
+                with open(os.path.join(d, "clock-offsets.txt"), "wb") as f:
+                    f.write(b"\n".join(rows) + b"\n")
+                chk.count("emuall:with-clock-table")
+            inputs.append(emuall.trace_lines(d, lint=s.lint, gids=s.gid))
+            dirs.append(d)
+
+        def one(ix):
+            rc, o, e = trace.run_tool(build, "ovniemu", (["-l"] if pick[ix].lint else []), dirs[ix])
+            files = {}
+            if rc == 0:
+                for n in PV_FILES:
+                    pth = os.path.join(dirs[ix], n)
+                    if os.path.exists(pth):
+                        files[n] = open(pth, "rb").read().decode("latin1")
+            return rc, e, files
+        reals = trace.pmap(one, range(len(pick)), 4)
+        model = emuall.run_model(oracle, inputs)
+        for s, (rc, err, files), m in zip(pick, reals, model):
+            chk.case(("all", len(s.events), len(s.threads), tuple(s.enabled)))
+            chk.count("emuall:" + ("accepted" if rc == 0 else "refused"))
+            if (rc == 0) != (m[0] == "ok"):
+                bad.append((s.describe(), "whole-emulator composition: ovniemu exits %s (%s), the model says %s %s" % (
+                    rc, emucore._first_error(err)[:120], m[0], m[1])))
+            elif rc == 0:
+                dd = compare_pv(files, m[2])
+                if dd:
+                    bad.append((s.describe(), "whole-emulator composition: " + dd[1]))
+            else:
+                chk.count("emuall:refused-as:" + m[1].split(":")[0])
+    finally:
+        shutil.rmtree(wd, ignore_errors=True)
+    chk.coverage["whole_traces_through_composed_model"] = len(pick)
     return bad
 
 
@@ -508,6 +574,10 @@ def run(chk):
         if opsbad:
             chk.coverage["pv_ops_disagreements"] = [{"script": c[0], "what": c[1]} for c in opsbad[:5]]
             pvcorr += [({"ops": c[0]}, "writer primitives: " + c[1]) for c in opsbad]
+    allbad = emuall_family(chk, build, scs)
+    if allbad:
+        chk.coverage["emuall_disagreements"] = [{"scenario": c[0], "what": c[1]} for c in allbad[:5]]
+        pvcorr += allbad
     if pvcorr:
         chk.coverage["pv_correspondence_disagreements"] = [{"scenario": c[0], "what": c[1]} for c in pvcorr[:5]]
     if pvcorr and not chk.violations:
